@@ -97,6 +97,10 @@ def kind_inputs():
 
 
 INPUTS.update(kind_inputs())
+INPUTS["subscriptions"] = dict(
+    schema="type T { id: ID! n: Int }\ntype Query { a: Int }\ntype Subscription { count(data: Int, query: String): Int! item(data: Int): T! items: [T!] }\n",
+    queries="subscription Count($data: Int, $query: String) { count(data: $data, query: $query) }\nsubscription Item($data: Int) { item(data: $data) { id n } }\n"
+            "subscription Plain($x: Int) { count(data: $x) }\nsubscription Items { items { id } }\nquery GetA { a }\n")
 # uploads: the shared import nodes of the client module and the input types module (Upload as a variable and inside an input)
 INPUTS["uploads"] = dict(
     schema="scalar Upload\ninput FileIn { f: Upload name: String more: [Upload!] }\ntype T { id: ID! }\ntype Query { t: T }\n"
@@ -196,6 +200,17 @@ def evaluate(case):
             except Exception as e:  # noqa
                 hints[mname] = {"__error__": f"{type(e).__name__}: {str(e)[:200]}"}
             if op.operation.value == "subscription":
+                # one scripted websocket exchange: ack, one next frame carrying the reference executor's default answer, complete
+                from mc import inputs as _inputs
+                try:
+                    res, _ = refexec.execute(schema, inp["queries"], {}, lambda n, l=None: 0, operation_name=name, scalar_values={"Blob": {"b": 1}, "DT": "2020-01-02T03:04:05"})
+                    kw = kwargs_for(op, mods["input_types"]) if "input_types" in mods else {}
+                    subs, (st_, val) = _inputs.call_and_capture_ws(mod, mods, Client, mname, kw, data=res.data)
+                    ops[name] = [{"outcome": "ok" if st_ == "ok" else "exc:" + type(val).__name__, "value": norm(val) if st_ == "ok" else None,
+                                  "request": {"query": " ".join((subs[0].get("query") or "").split()) if subs else None, "operationName": subs[0].get("operationName") if subs else None,
+                                              "variables": subs[0].get("variables") if subs else None}, "data": res.data}]
+                except BaseException as e:  # noqa
+                    ops[name] = [{"outcome": "exc:" + type(e).__name__, "request": None, "data": None}]
                 continue
             runs = []
             state = {}
@@ -299,7 +314,11 @@ def compare(base, r, plugins, rep, feats, desc):
             want = b["value"]
             if "shorter" in names and single:
                 key = base["top_fields"][opn][0]
-                want = strip_model(b["value"]).get(key, "<missing>") if isinstance(strip_model(b["value"]), dict) else "<n/a>"
+                if isinstance(b["value"], list) and isinstance(p["value"], list) and b.get("data") is not None and "request" in b and opn in SUBSCRIPTION_OPS:
+                    # subscription: one value per next frame
+                    want = [strip_model(x).get(key, "<missing>") if isinstance(strip_model(x), dict) else "<n/a>" for x in b["value"]]
+                else:
+                    want = strip_model(b["value"]).get(key, "<missing>") if isinstance(strip_model(b["value"]), dict) else "<n/a>"
                 got = strip_models(p["value"])
                 if got != strip_models(want):
                     rep.violation("shorter_results_value", feats, f"{opn}: plugged returns {json.dumps(got)[:200]}, the single top-level field of the unplugged result is {json.dumps(strip_models(want))[:200]}", desc)
@@ -313,6 +332,9 @@ def compare(base, r, plugins, rep, feats, desc):
             if r["hints"].get(m) != h:
                 rep.violation("type_hints_differ", feats, f"{m}: plugged {r['hints'].get(m)} unplugged {h}", desc)
                 break
+
+
+SUBSCRIPTION_OPS = {"Tick", "Count", "Item", "Plain", "Items"}
 
 
 def strip_model(v):
